@@ -651,10 +651,19 @@ def _validate_dict_match(target: dict, actual: dict) -> ResourceMatch:
 
     for compare_key in target_keys.intersection(actual_keys):
         if compare_key in compare_as_map:
-            key_match = _validate_match(
-                _list_to_object(target[compare_key], compare_as_map[compare_key]),
-                _list_to_object(actual[compare_key], compare_as_map[compare_key]),
-            )
+            if not (
+                _is_object_list(target[compare_key])
+                and _is_object_list(actual[compare_key])
+            ):
+                key_match = ResourceMatch(
+                    match=False,
+                    differences="expected an array of objects for `x-koreo-compare-as-map`",
+                )
+            else:
+                key_match = _validate_match(
+                    _list_to_object(target[compare_key], compare_as_map[compare_key]),
+                    _list_to_object(actual[compare_key], compare_as_map[compare_key]),
+                )
         else:
             key_match = _validate_match(
                 target[compare_key],
@@ -666,6 +675,12 @@ def _validate_dict_match(target: dict, actual: dict) -> ResourceMatch:
             differences[compare_key] = key_match.differences
 
     return ResourceMatch(match=not differences, differences=differences)
+
+
+def _is_object_list(value) -> bool:
+    return isinstance(value, (list, tuple)) and all(
+        isinstance(item, dict) for item in value
+    )
 
 
 def _validate_list_match(target: list | tuple, actual: list | tuple) -> ResourceMatch:
